@@ -252,10 +252,44 @@ def run(ctx):
         if c.base in gen.puncts() or rng.random() < 0.5:
             return c
         return gen.mk_atom(c.base, rng.choice([None, 'X', 'nb', 'dcl', 'b', 'em']))
+    def vary_one(c):
+        """the same category with the feature of exactly ONE atom replaced by a concrete value that clashes with it (or fills an empty slot)"""
+        leaves = []
+
+        def walk(x, path):
+            if x.is_functor:
+                walk(x.left, path + (0,)); walk(x.right, path + (1,))
+            elif x.base not in gen.puncts():
+                leaves.append(path)
+        walk(c, ())
+        if not leaves:
+            return c, c
+        target = rng.choice(leaves)
+        val = [None]
+
+        def rebuild(x, path):
+            if x.is_functor:
+                return Functor(rebuild(x.left, path + (0,)), x.slash, rebuild(x.right, path + (1,)))
+            if path != target:
+                return x
+            return gen.mk_atom(x.base, val[0])
+        # both occurrences get a value at that atom: two different concrete ones (a clash), or a concrete one against a variable / no feature
+        v1, v2 = rng.sample(['dcl', 'b', 'em', 'ng'], 2)
+        if rng.random() < 0.3:
+            v2 = rng.choice(['X', None])
+        val = [v1]
+        first = rebuild(c, ())
+        val[0] = v2
+        return first, rebuild(c, ())
+    big_parts = [c for c in parts if gen.size(c) >= 3] or parts
     built = []
-    for _ in range(150 if quick else 3000):
+    for it_ in range(150 if quick else 3000):
         a, b, c, d = (rng.choice(parts) for _ in range(4))
+        if it_ % 3 == 0:
+            b = rng.choice(big_parts)          # a shared part with at least three atoms ...
         b2 = b if rng.random() < 0.5 else vary(b)
+        if it_ % 3 == 0:
+            b, b2 = vary_one(b)                 # ... whose two occurrences differ at exactly one atom
         if rng.random() < 0.15:
             a = b                                   # modifier
         if rng.random() < 0.1:
